@@ -160,7 +160,12 @@ def execute(case):
     validator = jsonschema.Draft7Validator(full)
     # (2) the valid state validates
     state = json.loads(holder.param.serialize_parameters())
-    errs = list(validator.iter_errors(state))
+    try:
+        errs = list(validator.iter_errors(state))
+    except Exception as e:  # noqa: BLE001
+        # (the independent validator could not even evaluate the schema on this state, e.g. `multipleOf` against an infinity)
+        res.fail("C16.valid_state_rejected", f"validating the serialized state {state!r} against {schema!r} raised {type(e).__name__}: {e}")
+        errs = []
     for e in errs[:3]:
         n = list(e.absolute_path)[0] if e.absolute_path else "?"
         i = names.index(n) if n in names else None
